@@ -288,10 +288,7 @@ func init() {
 	scenarioGens["C16maps"] = func(tier string) []*Scenario {
 		return finish(genC16Maps(lvlOf(tier)), "C16", OMon|OLin, false)
 	}
-	// until the cache-level families exist these are the whole property
 	for _, p := range []string{"C05", "C07", "C08", "C13", "C16"} {
-		p := p
-		scenarioGens[p] = func(tier string) []*Scenario { return scenarioGens[p+"maps"](tier) }
 		checks[p] = func(rc *runCtx) int { return runE1Check(rc, e1Assumptions, nil) }
 	}
 }
